@@ -382,3 +382,86 @@ def extra_c10(prop, goit, sbase, seed, tier, model_ok, stats):
 
 
 EXTRA["C10"] = extra_c10
+
+
+# ------------------------------------------------------------------ C01: large and awkward contents
+def c01_case(args):
+    goit, kind, size, seed, sbase = args
+    import hashlib, random as _r, zlib
+    import core
+    rng = _r.Random(seed)
+    if kind == "zeros":
+        data = b"\0" * size
+    elif kind == "random":
+        data = rng.randbytes(size)
+    elif kind == "text":
+        data = (b"line %d of some text\n" * 1)[:0] + b"".join(b"line %d\n" % i for i in range(size // 8))[:size]
+    elif kind == "header-like":
+        data = (b"blob %d\0" % size) + rng.randbytes(max(0, size - 12))
+    else:
+        data = bytes(range(256)) * (size // 256 + 1)
+        data = data[:size]
+    sb = core.Sandbox(goit, base=sbase)
+    bad = []
+    try:
+        sb.run([b"init"])
+        sb.write(b"big", data)
+        want = hashlib.sha1(b"blob %d\0" % len(data) + data).hexdigest().encode()
+        r = sb.run([b"hash-object", b"big"], timeout=60)
+        if r.cls != "ok" or r.out.strip() != want:
+            bad.append("hash-object of %d %s bytes printed %r, Git's id is %r" % (len(data), kind, r.out[:50], want))
+        r = sb.run([b"add", b"big"], timeout=60)
+        if r.cls != "ok":
+            bad.append("add of %d %s bytes failed: %r" % (len(data), kind, r.err[-100:]))
+        p = os.path.join(sb.work, ".goit", "objects", want[:2].decode(), want[2:].decode())
+        raw = core.read_file(p)
+        if raw is None:
+            bad.append("no object file for %d %s bytes" % (len(data), kind))
+        else:
+            try:
+                if zlib.decompress(raw) != b"blob %d\0" % len(data) + data:
+                    bad.append("object file of %d %s bytes does not inflate to header+content" % (len(data), kind))
+            except zlib.error as e:
+                bad.append("object file of %d %s bytes does not inflate: %s" % (len(data), kind, e))
+        r = sb.run([b"cat-file", b"-t", want], timeout=60)
+        if r.cls != "ok" or r.out != b"blob\n":
+            bad.append("cat-file -t of a %d-byte %s blob: %s %r %r" % (len(data), kind, r.cls, r.out[:20], r.err[-80:]))
+        r = sb.run([b"cat-file", b"-p", want], timeout=60)
+        if r.cls != "ok" or r.out != data + b"\n":
+            bad.append("cat-file -p of a %d-byte %s blob does not return its bytes (%s, %d bytes back)" % (len(data), kind, r.cls, len(r.out)))
+        # storing it again must not damage it
+        r = sb.run([b"add", b"big"], timeout=60)
+        if core.read_file(p) is None or zlib.decompress(core.read_file(p)) != b"blob %d\0" % len(data) + data:
+            bad.append("re-adding damaged the stored object")
+    finally:
+        sb.close()
+    return {"kind": kind, "size": size, "bad": bad}
+
+
+def extra_c01(prop, goit, sbase, seed, tier, model_ok, stats):
+    sizes = [0, 1, 32757, 32758, 32768, 40000, 65535, 65536, 65537, 200000, 1 << 20]
+    if tier == "thorough":
+        sizes += [3 << 20, 8 << 20, 100003, 131072, 524288]
+    kinds = ["zeros", "random", "text", "header-like", "allbytes"]
+    jobs = [(goit, k, s, seed + i, sbase) for i, (k, s) in enumerate((k, s) for s in sizes for k in kinds)]
+    with _pool() as pool:
+        results = pool.map(c01_case, jobs, chunksize=1)
+    for res in results:
+        stats["evaluations"] += 1
+        stats["distinct_nontrivial"] += 1
+        stats["distribution"]["commands"]["large-blob:%s" % res["kind"]] += 1
+        for b in res["bad"]:
+            stats["oracle_failures"].append({"seed": seed, "steps": [], "i": 0, "msg": b, "shrinkable": False,
+                                             "step_name": "cat-file", "extra": {"kind": "c01", "content": res["kind"], "size": res["size"]}})
+    stats["samples"].append({"large_contents": {"sizes": sizes, "kinds": kinds,
+                                               "note": "implementation + independent zlib/SHA-1 readers only; the model's formula "
+                                                       "obj_id = sha1(header ++ bytes) is evaluated by hashlib for these sizes"}})
+
+
+def replay_c01(prop, goit, j, steps, sbase):
+    ex = j.get("extra") or {}
+    return c01_case((goit, ex.get("content", "random"), ex.get("size", 40000), j.get("seed") or 0, sbase))["bad"]
+
+
+EXTRA["C01"] = extra_c01
+REPLAY["c01"] = replay_c01
